@@ -1036,6 +1036,25 @@ def handle (line : String) (impl : Option String := none) : List String :=
       | some n => [s!"M {n}"]
       | none => ["M x"]
     | _, _ => ["M bad-case"]
+  | ["Q", pol, cap, fmt, len] =>
+    -- a reader of capacity `cap` under the policy reads a file of ONE record of `len` bytes in all (sizes far beyond what
+    -- the byte-level machine is run on): the requests it makes are the chain from `cap` on, continued while the record
+    -- does not fit – FASTA has to see the end of the input (buffer not full), a terminated FASTQ record only its four lines
+    match parsePol pol, cap.toNat?, len.toNat? with
+    | some p, some c, some n =>
+      let fits (c : Nat) : Bool := if fmt = "fa" then n < c else n ≤ c
+      let rec chain (fuel : Nat) (p : Pol) (c : Nat) (acc : List (Nat × Option Nat)) : List (Nat × Option Nat) × Bool :=
+        match fuel with
+        | 0 => (acc.reverse, true)
+        | fuel + 1 =>
+          if fits c then (acc.reverse, true)
+          else
+            match p.growTo c with
+            | (some c', p') => chain fuel p' c' ((c, some c') :: acc)
+            | (none, _) => (((c, none) :: acc).reverse, false)
+      let (log, ok) := chain 5000 p.toPol c []
+      ["M " ++ (if ok then "R" else "E:bl") ++ " L=" ++ logStr log]
+    | _, _, _ => ["M bad-case"]
   | "I" :: toks => ["M " ++ handleIter toks]
   | "X" :: toks => ["M " ++ handlePar toks]
   | "Z" :: _ => ["M ok"]
